@@ -1,0 +1,8 @@
+//go:build !verif
+
+// Package verifhook provides named hook points for external verification harnesses.
+// Without the "verif" build tag Point is an empty function that the compiler inlines away.
+package verifhook
+
+// Point marks a named point in the code. It does nothing unless built with the "verif" tag.
+func Point(name string, args ...string) {}
